@@ -380,7 +380,8 @@ class SimSocket:
         cap = net.cfg.get("pipe_capacity")
         if cap is not None and n:
             pipe = self._tx
-            while pipe.sent - pipe.consumed >= cap and not (peer is not None and peer._closed):
+            # (a black-holed connection hides the peer's close as well: the sender just stays blocked)
+            while pipe.sent - pipe.consumed >= cap and not (peer is not None and peer._closed and not pipe.blackhole):
                 sim.count("net.send_blocked")
                 if self._timeout == 0:
                     raise BlockingIOError(errno.EAGAIN, "would block")
@@ -392,7 +393,7 @@ class SimSocket:
                     raise OSError(errno.EBADF, "Bad file descriptor")
                 if pipe.reset:
                     raise ConnectionResetError(errno.ECONNRESET, "Connection reset by peer")
-            if peer is not None and peer._closed:
+            if peer is not None and peer._closed and not pipe.blackhole:
                 # the receiver went away while we were blocked (unread data at its end => RST)
                 sim.record("send_fail", fd=self._fd)
                 raise ConnectionResetError(errno.ECONNRESET, "Connection reset by peer")
